@@ -8,14 +8,14 @@ PLAN = dict(
          "non-trivial = at least one unit or loop chunk was executed by a thread other than its submitter (stolen / FIFO stream / mailbox); "
          "distinct = hash of program text + schedule descriptor",
     assumptions=SC_TSO + ["work run into a task_group from inside task_arena::execute of another arena is outside the generated domain (it may legitimately never be taken when that arena has no worker)",
-                          "units whose ancestor group is cancelled anywhere in the program may be skipped (checked: never twice, never half-run)"],
+                          "the assertion flavour never generates max_allowed_parallelism 1 (known finding C01-update-allotment-assert: debug-only assertion in market::update_allotment)", "units whose ancestor group is cancelled anywhere in the program may be skipped (checked: never twice, never half-run)"],
     floor=dict(quick=50, thorough=300),
     tiers=dict(
         quick=[det("rel", H, "cs-rel", 16, 40, 4, tso=True, time_cap=30),
-               det("dbg", H, "cs-dbg", 16, 12, 4, tso=True, time_cap=25),
+               det("dbg", H, "cs-dbg", 16, 12, 4, tso=True, time_cap=25, args=["--no-soft0"]),
                tsan("C01", 4, 80)],
         thorough=[det("rel", H, "cs-rel", 16, 1200, 5, tso=True, time_cap=300),
-                  det("dbg", H, "cs-dbg", 16, 300, 5, tso=True, time_cap=200),
+                  det("dbg", H, "cs-dbg", 16, 300, 5, tso=True, time_cap=200, args=["--no-soft0"]),
                   det("enum-wake", H, "cs-rel", 16, 40, 2, tso=True, time_cap=120, enum="wake", enum_cap=150),
                   det("enum-sbload", H, "cs-rel", 16, 40, 2, tso=True, time_cap=120, enum="sbload", enum_cap=150),
                tsan("C01", 16, 600)],
